@@ -21,6 +21,7 @@ func init() {
 			{Pkg: wtxmgrPkg, Fn: "ZzC12MinedL2", Tiers: "qt", Reach: []string{"c12-end", "leased"}, Bound: "the lease clause of the balance: C12's lease harness (2 events, symbolic clock, minConf and syncHeight) - label c12-balance is C01's balance equation with leases"},
 			{Pkg: wtxmgrPkg, Fn: "ZzC01U7L3", Tiers: "qt", Reach: []string{"c01-end", "reorg"}, Bound: "U7 (coinbase with a foreign output 0 and a credit at index 1, a known spender of each), 3 events"},
 			{Pkg: wtxmgrPkg, Fn: "ZzC01U9P3L2", Tiers: "qt", Reach: []string{"c01-end", "reorg"}, Bound: "U9 (A with two credits; B spends A:0; its replacement B' spends A:0 and A:1; M spends A:1) after the fixed preamble 'A confirmed, B seen, B' seen' (two conflicting unconfirmed spenders of one credit known at once), then every history of 2 events"},
+			{Pkg: walletPkg, Fn: "ZzC01Wallet", Tiers: "qt", Reach: []string{"c01w-end", "several-listed"}, Bound: "wallet level: a real Wallet with nine differently situated credits (confirmed early/late, other scope, unconfirmed, coinbase, spent by an unconfirmed tx, user-locked, leased, other account): Wallet.CalculateBalance for SYMBOLIC minconf and coinbase maturity, Wallet.ListUnspent for 3x3 confirmation ranges (concrete seed; the chain backend is a harness model)"},
 			{Pkg: wtxmgrPkg, Fn: "ZzC01U8L3", Tiers: "t", Reach: []string{"c01-end"}, Bound: "U8 (P pays wallet and stranger, R spends the stranger's output back to the wallet, P' conflicts with P), 3 events"},
 			{Pkg: wtxmgrPkg, Fn: "ZzC01U3L3", Tiers: "t", Reach: []string{"c01-end", "reorg"}, Bound: "U3 (conflicting spenders), 3 events"},
 			{Pkg: wtxmgrPkg, Fn: "ZzC01U4L3", Tiers: "t", Reach: []string{"c01-end", "reorg"}, Bound: "U4 (coinbase and its descendants), 3 events"},
